@@ -7,7 +7,7 @@ for l in open('/verif/out/seed_verify.log'):
     m=re.match(r'VERIFY (\w+)/(\w+): (.*)',l)
     if m: verify[(m.group(1),m.group(2))]=m.group(3).strip()
 checks={}
-for f in ['/verif/out/seed_check.log','/verif/out/seed_check2.log']:
+for f in ['/verif/out/seed_check.log','/verif/out/seed_check2.log','/verif/out/seed_check3.log']:
     if not os.path.exists(f): continue
     for l in open(f):
         m=re.match(r'CHECK (\w+)/(\w+)(?: by (\w+))?: exit=(\d+) violations=(\d+)(.*)',l)
